@@ -253,13 +253,18 @@ def headPredicate : Formula → Option Pred
   | .quant .all _ f => headPredicate f
   | _ => none
 
-/-- `theory_translate` -/
+/-- output predicates of the user guide that do not occur in the program -/
+def missingOutputs (t : ExternalTask) (p : Program) : List Pred := t.userGuide.outputs.filter (· ∉ p.preds)
+
+/-- `theory_translate` (with fix 82641ae: a declared output predicate that the program does not
+    mention gets the completed definition `forall V (p(V) <-> #false)`) -/
 def theoryTranslate (t : ExternalTask) (m : PlaceholderMap) (fuel : Nat) (p : Program) : Outcome Theory :=
   if globalsPanic p then .panic "choose_fresh_global_variables: add overflow" else
   let th := (tauStar p).map (Formula.replacePlaceholders m)
   match completion th t.userGuide.inputs with
   | none => .panic "tau_star did not create a completable theory"
-  | some th =>
+  | some th0 =>
+    let th := th0 ++ (missingOutputs t p).map fun q => completeDefinition (atomFromPred q) []
     if t.simplify then
       match simplifyTheory .classic fuel th with
       | some th' => .ok th'
